@@ -12,7 +12,7 @@ PROP = dict(
           "and the body bytes with the spec and produces the spec's response (put(ByteArray) / put(String) / put(Var) / put(File) / serveFile() of a file below the web root with a set modification time, optionally with If-Modified-Since (IMF-fixdate before / 2 s before / 1 s before / equal to / after the mtime: 304 exactly when mtime <= date + 1 s; RFC 850 form, asctime form and non-date text are ignored by the unchanged library: 200 + file; also combined with Range) / "
           "setHeader(Content-Length)+write() in pieces / setHeader(Transfer-Encoding: chunked)+write() in pieces or in ONE call up to 512 KiB, read until the connection ends (request carries Connection: close; de-chunked by the library client and by the reference reader) / nothing); the client compares status code, headers, body bytes (json() for Var bodies; "
           "206 + Content-Range + exact slice for ranges) and its own token. Clients: Http::request, get/post/put/patch/delet with ByteArray, String, "
-          "Var and File bodies, Http::download and Http::upload (plain and multipart), and a raw-socket client from an independent HTTP "
+          "Var and File bodies (half of the file names contain 2-, 3- and 4-byte UTF-8 scalars), Http::download and Http::upload (plain and multipart), and a raw-socket client from an independent HTTP "
           "writer/reader (ref_http.h) sending Content-Length or chunked requests in 7 fragmentation shapes (one piece, head|body, head byte by "
           "byte, random cuts, cuts inside the blank line, cuts at chunk-size lines, everything byte by byte), HTTP/1.0 and 1.1, 'Connection: close' "
           "(then nothing may follow the response), optionally with 'Expect: 100-continue' (with a Content-Length, chunked, or Content-Length: 0; the body "
